@@ -2,5 +2,5 @@
 #[verifier::external_body] #[derive(Clone, Copy)] pub struct MySyntaxNodePtr { _p: u64 }
 #[verifier::external_body] pub struct Path { _p: u64 }
 #[verifier::external_body] pub struct TypeExpr { _p: u64 }
-#[verifier::external_body] pub struct UnaryOp { _p: u64 }
-#[verifier::external_body] pub struct BinaryOp { _p: u64 }
+#[verifier::external_body] #[derive(Clone, Copy)] pub struct UnaryOp { _p: u64 }
+#[verifier::external_body] #[derive(Clone, Copy)] pub struct BinaryOp { _p: u64 }
